@@ -49,7 +49,7 @@ def generate(rng):
         scn['delayafterread'] = rng.choice([0.001, 0.005, 0.02])
         scn['sched'] = [rng.randint(0, 3) for _ in range(rng.randint(1, 8))]
         if T not in (None, -1, 0):
-            T = min(T, 1.0)
+            T = min(T, 3.0 if scn['delayafterread'] >= 0.005 else 1.0)
         inst = min(inst, 1.0)
     elif rng.random() < 0.2:
         scn['delayafterread'] = rng.choice([None, 0.01])
@@ -66,6 +66,8 @@ def generate(rng):
         kinds = ['ready', 'ready', 'silent', 'ready_nomatch', 'die']
     else:
         kinds = ['silent', 'trickle', 'trickle', 'burst', 'burst', 'die', 'late_match']
+        if scn.get('enc'):
+            kinds += ['partial_char', 'partial_char']
         if tr == 'pty':
             kinds += ['hangup_alive', 'hangup_alive']
         elif tr in ('fd', 'sock'):
@@ -90,6 +92,11 @@ def generate(rng):
             dt, n = rng.choice([1000, 20000]), rng.randint(1, 20)
         peer.append({'op': 'loop', 'd': 'z', 'dt': dt, 'n': n})
         peer.append({'op': 'w', 'd': TOKEN, 'dt': dt})
+        peer.append({'op': 'pause'})
+    elif kind == 'partial_char':
+        # the head of a multi-byte character arrives (decodes to nothing yet), then silence
+        t = max(1, int(horizon * 1e6 * rng.choice([0.3, 0.6, 0.9, 0.97])))
+        peer.append({'op': 'w', 'd': rng.choice(['\xe2\x82', '\xe2', 'zz\xf0\x9f\x98']), 'dt': t})
         peer.append({'op': 'pause'})
     elif kind == 'burst':
         off = rng.choice([-20000, -1000, -100, -10, -1, 0, 1, 10, 100, 1000, 20000])
@@ -316,7 +323,7 @@ def evaluate(r, scn, ops, recs):
         if dur > Teff * 1e6 + EPS_US + (scn.get('delayafterread') or 0) * 1e6:
             V('C05.overrun', 'call with timeout %r took %.3f virtual s' % (Teff, dur / 1e6))
             return out
-        connected = kind in ('silent', 'trickle', 'burst', 'late_match', 'ready', 'ready_nomatch', 'echo_off', 'trickle_then_match')
+        connected = kind in ('silent', 'trickle', 'burst', 'late_match', 'ready', 'ready_nomatch', 'echo_off', 'trickle_then_match', 'partial_char')
         if is_timeout and Teff > 0 and connected and dur < Teff * 1e6 - EARLY_SLACK_US:
             V('C05.early', 'TIMEOUT after %.6f virtual s with timeout %r while the peer is connected' % (dur / 1e6, Teff))
             return out
